@@ -82,6 +82,11 @@ def classify(family, program, path, py, c):
     if family == 'lb':
         if program[1] == 4:
             return 'C10:lb:unhashable-required-key-reaches-uncached-lookup'
+    if family == 'kw':
+        # single-argument callables are METH_O in the accelerator: their one parameter is positional-only there, a keyword in Python
+        if program[0] in TP.KW_POSITIONAL_ONLY_IN_C and program[1] == 0 and program[2] == 0 and (
+                (path == '[0]' and c == 'raise:TypeError' and py == 'ok') or path == '[1]'):
+            return 'C10:kw:single-argument-callables-are-positional-only-in-C'
     return None
 
 
@@ -108,6 +113,9 @@ def describe(family, program):
             return '%s required=%s provided=%s name=%r uncached-answer=%s calls=%s,%s,%s' % (
                 ['LookupBase', 'VerifyingBase'][program[0]], TP.LB_REQ[program[1]], TP.LB_PROV[program[2]], TP.LB_NAME[program[3]],
                 TP.LB_ANS[program[4]], TP.LB_CALL[program[5]], TP.LB_CALL[program[6]], TP.LB_CALL[program[5]])
+        if family == 'kw':
+            return '%s with the first %d argument(s) positional and the rest by keyword (%s)' % (
+                TP.KW_TARGETS[program[0]], program[1], TP.KW_MODES[program[2]])
         if family == 'snap':
             return 'chain of %d VerifyingAdapterRegistry, %s in registry #%d of the resolution order, caches %s' % (
                 program[0], TP.SNAP_MUT[program[2]], program[1], 'warm' if program[3] else 'cold')
@@ -229,6 +237,19 @@ def make_snap(params, part, nparts):
         prog = [cL, ck, cm, pick(w, 2)]
         reached(tuple(prog), dict(family='snap', program=describe('snap', prog)))
         native(differential, 'snap', prog)
+    return h
+
+
+def make_kw(params, part, nparts):
+    NT = len(TP.KW_TARGETS)
+
+    def h(t: int, npos: int, mode: int):
+        ct = pick(t, NT)
+        assume(ct % nparts == part)
+        prog = [ct, pick(npos, 5), pick(mode, len(TP.KW_MODES))]
+        ok = native(differential, 'kw', prog)
+        assume(ok)
+        reached(tuple(prog), dict(family='kw', program=describe('kw', prog)))
     return h
 
 
@@ -400,6 +421,11 @@ HARNESSES = [
        'generation-snapshot programs: chains of 2..4 VerifyingAdapterRegistry, one mutation (register / unregister / subscribe / unsubscribe / '
        'added base) in any registry behind the front one, caches warm or cold; trace = 8 entry points of the front registry before and '
        'after, and of a chain built afterwards', qb=60, tb=120, parts=4),
+    _h('d_kw', make_kw, {}, {},
+       'call-shape programs: 21 callables the accelerator implements (6 lookup entry points x 2 registry flavours, Interface.__call__, '
+       '__adapt__, isOrExtends, providedBy / implementedBy as methods and functions, getObjectSpecification, changed) x every split of the '
+       'documented parameter list into leading positional and trailing keyword arguments x {correct names, one misspelled keyword, first '
+       'argument given twice}', qb=60, tb=60, parts=7),
     Harness('ir_snapshot', kind='custom', impls=('c',), run=run_ir_snapshot,
             tiers=dict(quick=dict(budget_s=120, parts=1, params={}), thorough=dict(budget_s=900, parts=1, params={})),
             encoded=['zope.interface._zope_interface_coptimizations:verify_changed', 'zope.interface._zope_interface_coptimizations:_verify',
